@@ -8,9 +8,9 @@ func init() {
 	}
 	register(&Property{
 		ID:          "C05",
-		Explanation: "RA over the stable compiler's scheduler and the shared symbol table: executor.results and result.blockedOn are touched only under their mutex; executor/result fields read without locks are never assigned after construction; descriptorProtoIsCustom is written only inside its sync.Once. RB: result.res/err are written only in fail/complete (write; close(ready)) and every other read is dominated by a receive from the same result's ready channel. RC5: Compile returns descriptors indexed by request position only after the handler verdict. RC1/RC2/RC8 (shared with C06): the blocked-on publication and cycle-check ordering in task.asFile, whose violation makes the outcome (cycle error vs. hang) depend on the schedule and on the order of the requested files. RC10: requested files are registered in one critical section. RI/RJ: no map-order-, clock- or random-dependent value is produced in functions reachable from Compiler.Compile except through the listed order-insensitive idioms. RA4: insert-if-absent writes of the symbol table happen in the critical section that validated them.",
+		Explanation: "RA over the stable compiler's scheduler and the shared symbol table: executor.results and result.blockedOn are touched only under their mutex; executor/result fields read without locks are never assigned after construction; descriptorProtoIsCustom is written only inside its sync.Once. RB: result.res/err are written only in fail/complete (write; close(ready)) and every other read is dominated by a receive from the same result's ready channel. RC5: Compile returns descriptors indexed by request position only after the handler verdict. RC1/RC2/RC8 (shared with C06): the blocked-on publication and cycle-check ordering in task.asFile, whose violation makes the outcome (cycle error vs. hang) depend on the schedule and on the order of the requested files. RC10: requested files are registered in one critical section. RI/RJ: no map-order-, clock- or random-dependent value is produced in functions reachable from Compiler.Compile except through the listed order-insensitive idioms. RA4: insert-if-absent writes of the symbol table happen in the critical section that validated them. RC5b: no method of task reads the executor's shared handler; a task's verdict comes from its own sub-handler.",
 		NotDecided:  "that linking a file is a pure function of its inputs beyond those sources; order of reporter callbacks (unconstrained by the property)",
-		Rules:       []func(*World){raCompiler, rbCompiler, rcCompile, rcAsFile, raSymbols, ra4Symbols, rc10ExplicitRegistration, riCompile},
+		Rules:       []func(*World){raCompiler, rbCompiler, rcCompile, rcAsFile, rc5bTaskUsesOwnHandler, raSymbols, ra4Symbols, rc10ExplicitRegistration, riCompile},
 	})
 	register(&Property{
 		ID:          "C06",
@@ -44,9 +44,9 @@ func init() {
 	})
 	register(&Property{
 		ID:          "C34",
-		Explanation: "RD-inc: typestate of the published pending result over task.run and its deferred leader handler, per exit kind (return output / return nil / panic): every handler path must close output.done; paths that only un-publish or do neither are reported. RE-inc: hold accounting (held/free per Task variable, case-split on the async parameter) over Run, task.run, waitUntilDone and Resolve: every normal exit restores the entry state, acquire/release/transferFrom are never applied in the wrong state, unbalanced exits only follow a failed acquire. RC3: followers check for a cycle before sleeping. RF: every blocking select has a ctx.Done arm and every semaphore Acquire uses the run context. RG: executor goroutines only run done(t.run(…)); Execute runs under a deferred recover that cancels the Run with ErrPanic carrying the value. RG2: every exit of task.run's deferred handler has recovered or is on the aborted edge. RE transfer shape: Task.transferFrom swaps the holding flags on every normal exit.",
+		Explanation: "RD-inc: typestate of the published pending result over task.run and its deferred leader handler, per exit kind (return output / return nil / panic): every handler path must close output.done; paths that only un-publish or do neither are reported. RE-inc: hold accounting (held/free per Task variable, case-split on the async parameter) over Run, task.run, waitUntilDone and Resolve: every normal exit restores the entry state, acquire/release/transferFrom are never applied in the wrong state, unbalanced exits only follow a failed acquire. RC3: followers check for a cycle before sleeping. RF: every blocking select has a ctx.Done arm and every semaphore Acquire uses the run context. RG: executor goroutines only run done(t.run(…)); Execute runs under a deferred recover that cancels the Run with ErrPanic carrying the value. RG2: every exit of task.run's deferred handler has recovered or is on the aborted edge. RE transfer shape: Task.transferFrom swaps the holding flags on every normal exit. RE release shape: every normal exit of Task.release has released the semaphore and cleared holding, or saw holding == false on that path. RC3c: every store into checkCycle's predecessor map is on the not-present edge of a lookup of the same key, so the map stays a tree and the reconstruction loop terminates.",
 		NotDecided:  "the content of the reported cycle; liveness of user code inside Execute",
-		Rules:       []func(*World){rdIncremental, reIncremental, reIncTransferShape, rcIncremental, rfIncremental, rgIncremental, rg2PanicAlwaysRecovered, rc3bExhaustiveCycleSearch},
+		Rules:       []func(*World){rdIncremental, reIncremental, reIncTransferShape, reIncReleaseShape, rcIncremental, rfIncremental, rgIncremental, rg2PanicAlwaysRecovered, rc3bExhaustiveCycleSearch, rc3cPredecessorTree},
 	})
 	register(&Property{
 		ID:          "C35",
@@ -56,9 +56,9 @@ func init() {
 	})
 	register(&Property{
 		ID:          "C36",
-		Explanation: "RI/RJ: over the module functions reachable (VTA call graph) from the query bodies, task.run and Canonicalize, no clock/random/environment primitive is called outside the reviewed stopwatch, and every map / sync.Map iteration is order-insensitive by idiom or reviewed (diagnostics pushed in map order are sorted by Canonicalize before being observable). RC4: Run returns a report only after Canonicalize and nothing is appended afterwards. RU: every field of report.Diagnostic must be a sort key of Canonicalize (directly, or through Primary()); un-keyed observable fields make the canonical order depend on the input order and are reported. RU2: on every path of Canonicalize each mutation of r.Diagnostics besides the sort (assignment, marking, slices.DeleteFunc, function literal or same-package callee doing so) is preceded by the sort, so which duplicate survives is decided over the sorted slice. RU3: inside package incremental a task's report is handed out by address only in (*Task).Report and otherwise written only on the leader-only section of task.run (success edge of result.CompareAndSwap(nil, …)); *Task values bound to a task are created only there — one writer per task report on every schedule. RU4 also rejects key functions that merge two fields through a selecting call (cmp.Or). RC6 (unconditional dependency edges) is part of this check because Run's report collection walks them.",
+		Explanation: "RI/RJ: over the module functions reachable (VTA call graph) from the query bodies, task.run and Canonicalize, no clock/random/environment primitive is called outside the reviewed stopwatch, and every map / sync.Map iteration is order-insensitive by idiom or reviewed (diagnostics pushed in map order are sorted by Canonicalize before being observable). RC4: Run returns a report only after Canonicalize and nothing is appended afterwards. RU: every field of report.Diagnostic must be a sort key of Canonicalize (directly, or through Primary()); un-keyed observable fields make the canonical order depend on the input order and are reported. RU2: on every path of Canonicalize each mutation of r.Diagnostics besides the sort (assignment, marking, slices.DeleteFunc, function literal or same-package callee doing so) is preceded by the sort, so which duplicate survives is decided over the sorted slice. RU3: inside package incremental a task's report is handed out by address only in (*Task).Report and otherwise written only on the leader-only section of task.run (success edge of result.CompareAndSwap(nil, …)); *Task values bound to a task are created only there — one writer per task report on every schedule. RU4 also rejects key functions that merge two fields through a selecting call (cmp.Or). RC6 (unconditional dependency edges) is part of this check because Run's report collection walks them. RU5b: Run only reads the tasks' Diagnostics slices (as the variadic source of append or through read-only locals); no slice of the Run is assigned from, re-sliced from, or appended onto a cached task's array, so the in-place canonicalization cannot rewrite a cached report.",
 		NotDecided:  "idempotence of de-duplication; determinism of the diagnostics each query produces",
-		Rules:       []func(*World){rc4Incremental, ruCanonicalize, ru2SortBeforeDedup, ru3ReportSingleWriter, ru4KeysUnconditional, ru5CollectionReadOnly, riIncremental, rcIncremental},
+		Rules:       []func(*World){rc4Incremental, ruCanonicalize, ru2SortBeforeDedup, ru3ReportSingleWriter, ru4KeysUnconditional, ru5CollectionReadOnly, ru5bMergedReportOwnsArray, riIncremental, rcIncremental},
 	})
 	register(&Property{
 		ID:          "C37",
@@ -110,9 +110,9 @@ func init() {
 	})
 	register(&Property{
 		ID:          "C28",
-		Explanation: "RS: the ok flag of experimental/parser.Parse is cleared by a condition which, evaluated over the whole Level domain, is true exactly for {ICE, Error}. RW: each stage entry (lexer.loop, parser.parse, ir.lower) defers Report.CatchICE(false, …) before anything but plain assignments, so panics become ICE diagnostics; the `for !X.Done()` driver loops of the lexer and parser call their progress guard first. RW6: every Edit bound handed to report.SuggestEdits is relative to the snippet (a constant, a length of the snippet, or X.Start/End - snippet.Start for a span X that was not extended). RW7: every input-driven recursion cycle of the parser's call graph has a depth guard (four open findings today). RV3 gate-on-every-path: lexPrelude answers 'go on' only after the UTF-8 gate.",
+		Explanation: "RS: the ok flag of experimental/parser.Parse is cleared by a condition which, evaluated over the whole Level domain, is true exactly for {ICE, Error}. RW: each stage entry (lexer.loop, parser.parse, ir.lower) defers Report.CatchICE(false, …) before anything but plain assignments, so panics become ICE diagnostics; the `for !X.Done()` driver loops of the lexer and parser call their progress guard first. RW6: every Edit bound handed to report.SuggestEdits is relative to the snippet (a constant, a length of the snippet, or X.Start/End - snippet.Start for a span X that was not extended). RW7: every input-driven recursion cycle of the parser's call graph has a depth guard (four open findings today). RV3 gate-on-every-path: lexPrelude answers 'go on' only after the UTF-8 gate. RV6/RV7 (shared with C29): the rune cases of lexer.loop hand over to a token lexer that consumes the dispatched rune, with the cursor rewound by exactly the rune's width — a mismatch ends in the progress guard's panic, i.e. an ICE.",
 		NotDecided:  "absence of ICEs (RW turns them into diagnostics, it does not exclude them); that diagnostic spans lie inside the file",
-		Rules:       []func(*World){rsParse, rwICE, rv3PreludeEncodingGate, rw5ConstIndexExperimental, rw3RuneErrorWidth, rw4NilParamDeref, rw6EditsInsideSnippet, rw7RecursionBounded},
+		Rules:       []func(*World){rsParse, rwICE, rv3PreludeEncodingGate, rw5ConstIndexExperimental, rw3RuneErrorWidth, rw4NilParamDeref, rw6EditsInsideSnippet, rw7RecursionBounded, rv6DispatchImpliesConsumption, rv7TokenStartAccounting},
 	})
 	register(&Property{
 		ID:          "C29",
